@@ -84,7 +84,7 @@ B_H3 = ("block signer with SHA2-256: 1-2 leaves (thorough up to 3) with / withou
         "KSI_Signature_signAggregated / KSI_Signature_free are recording stubs")
 plan = {
  "property": "C16",
- "outside": ("KSI_BlockSignerHandle_getSignature / KSI_BlockSigner_closeAndSign (need a server reply and the signature builder / parser); the block signer's leaf processors "
+ "outside": ("KSI_BlockSignerHandle_getSignature beyond the level / identity arithmetic of h5_blocksig_levels (concrete leaf levels and base corrections per instance, 1-3 leaves, signing stubbed, TLV template and verification modelled); the block signer's leaf processors "
              "(blocksigner.c) beyond the h3_blocksigner bound (<= 3 leaves; 4 leaves with masks and metadata did not finish in 30 min); types.c's own KSI_MetaData serializer (metadata leaves are harness objects implementing the same two callbacks); "
              "trees of more than 8 leaves; KSI_TreeBuilder_free; allocation failure (C19)"),
  "assumptions": ["hash function = memoising model: equal (algorithm, message) -> equal digest, different message -> different digest by ASSUME (collision-freeness is an explicit assumption)",
@@ -114,5 +114,9 @@ plan = {
                   "processAndInsertNode", "levelWithOverhead", "KSI_TreeBuilder_free"] + common["functions"],
        bound=B_H3, instances=h3_quick, thorough={"instances": h3_thorough, "timeout": 1800}),
  ]}
+# harnesses delivered as single plan entries (kept next to this file): h5_blocksig_levels
+import glob
+for f in sorted(glob.glob(os.path.join(HERE, "*_plan_entry.json"))):
+    plan["harnesses"].append(json.load(open(f)))
 json.dump(plan, open(os.path.join(HERE, "plan.json"), "w"), indent=1)
 print("wrote plan.json:", sum(len(h.get("instances", [1])) for h in plan["harnesses"]), "quick instances")
